@@ -63,9 +63,39 @@ def body(run):
     run.log("TLC: %d states; %d rows + %d key-size rows" % (run.cov["states"], len(rows), len(keyrows)))
     if len(rows) < 100:
         raise vf.Inconclusive("only %d rows generated" % len(rows))
+    ll.corrupt_rows(run, rows)
     results = run.go_run(exe[0], ["-prop", "C07", "-workers", "8" if q else "12"], cases=table + rows + keyrows, timeout=3000)
+    traces = [r for r in results if isinstance(r.get("obs"), dict) and "trace" in r["obs"]]
+    results = [r for r in results if not (isinstance(r.get("obs"), dict) and "trace" in r["obs"])]
     run.absorb(results)
     ll.show_inconclusive(run)
+    # code -> spec: the recorded events (chunk passed the proxy / peer verified a chunk / message delivered)
+    # of every message must be a behaviour of the chunker machine (ChunkTrace)
+    events = [e for t in traces for e in t["obs"]["trace"]]
+    nmsg = len([e for e in events if e["ev"] == "msg"])
+    alt = any("alt-chunking" in (r.get("class") or "") for r in results)
+    if events and not run.violations and not alt:
+        import json, os, re
+        if os.environ.get("VERIF_CORRUPT"):
+            i = [k for k, e in enumerate(events) if e["ev"] == "recv"][len(events) // 7]
+            events[i] = dict(events[i], body=events[i]["body"] + 1)
+            run.log("VERIF_CORRUPT: body length of one recorded recv event changed; TLC must reject the trace")
+        text = "".join(json.dumps(e) + "\n" for e in events)
+        tr = run.tlc("ChunkLayout", "ChunkTrace", "ChunkTrace.cfg", mode="trace", files={"trace.ndjson": text},
+                     label="trace: %d messages (%d events) recorded on real channel pairs validated against the chunker machine" % (nmsg, len(events)),
+                     timeout=2400)
+        if tr.ok:
+            run.cov["traces_validated_against_impl"] += nmsg
+        elif tr.violated in ("InvAccepted", "InvTraceFits"):
+            m = re.findall(r"\bbad = (\d+)", tr.out)
+            k = int(m[-1]) if m else 0
+            ctx = events[max(0, k - 4):k]
+            run.violation("chunk-trace-rejected-by-spec", "TLC (ChunkTrace!%s) rejects recorded event %d: %s" % (tr.violated, k, json.dumps(ctx)), case=ctx)
+        else:
+            run.save_text("tlc-ChunkTrace.out", tr.out)
+            raise vf.Inconclusive("ChunkTrace did not run: %s" % (tr.error or tr.violated))
+    elif alt:
+        run.notes.append("the tree cuts messages differently from the modelled chunker; trace validation against the modelled cut skipped, contract applied")
     run.cov["rows"] = len(rows)
     run.cov["key_size_rows"] = len(keyrows)
     run.cov["chunk_sizes"] = sorted(set(sizes))
